@@ -1467,9 +1467,18 @@ def apply(tree, rel):
     unfold_starmaps(tree)
     done = 0
     if os.environ.get('VERIF_NO_ALIAS_PROP') != '1':
+      # attributes of self that some method other than __init__ rebinds: an
+      # alias of one of them is a snapshot, not a name for the attribute
+      rebound = set()
+      for f in ast.walk(tree):
+        if isinstance(f, ast.FunctionDef) and f.name != '__init__':
+          for x in ast.walk(f):
+            if isinstance(x, ast.Attribute) and isinstance(x.ctx, (ast.Store, ast.Del)) \
+                and isinstance(x.value, ast.Name) and x.value.id == 'self':
+              rebound.add(x.attr)
       for f in ast.walk(tree):
         if isinstance(f, ast.FunctionDef):
-          done += propagate_aliases(f)
+          done += propagate_aliases(f, rebound)
       ast.fix_missing_locations(tree)
     if not done:
       break
@@ -2100,7 +2109,7 @@ def _pure_chain(e, roots):
   return False
 
 
-def propagate_aliases(fn):
+def propagate_aliases(fn, rebound=()):
   """Copy propagation of locals that merely name an attribute chain of self or
   of a parameter: assigned exactly once, at the top level of the function body,
   never rebound, chain root never rebound.  Returns the number of aliases
@@ -2166,6 +2175,21 @@ def propagate_aliases(fn):
           clobber = True
       if clobber:
         continue
+      # a snapshot of an attribute that methods rebind (self.scope) is not an
+      # alias once a method of self runs between the definition and a use
+      snap = any(isinstance(x, ast.Attribute) and isinstance(x.value, ast.Name)
+                 and x.value.id == 'self' and x.attr in rebound for x in ast.walk(v))
+      if snap:
+        users = [j for j in range(idx + 1, len(block)) if loads(block[j], name)]
+        last = users[-1] if users else idx
+        if any(isinstance(c, ast.Call) and (
+            (isinstance(c.func, ast.Attribute) and isinstance(c.func.value, ast.Name)
+             and c.func.value.id == 'self') or
+            (isinstance(c.func, ast.Attribute) and isinstance(c.func.value, ast.Call)
+             and isinstance(c.func.value.func, ast.Name) and c.func.value.func.id == 'super')
+            or any(isinstance(a, ast.Name) and a.id == 'self' for a in c.args))
+               for j in range(idx + 1, last + 1) for c in ast.walk(block[j])):
+          continue
 
       class R(ast.NodeTransformer):
         def visit_Name(self, n, name=name, v=v):
